@@ -641,9 +641,9 @@ func ruleP2(c *Ctx) {
 				if !ok || !cc.Common().IsInvoke() || cc.Common().Method.Name() != "Done" {
 					return
 				}
-				for _, pc := range pathConds(in2.Block()) {
+				for _, pf := range pathFacts(in2.Block()) {
 					loopBound := false
-					if b, ok := pc.If.Cond.(*ssa.BinOp); ok && (b.Op == token.LSS || b.Op == token.GTR || b.Op == token.LEQ || b.Op == token.GEQ) {
+					if b, ok := pf.Cond.(*ssa.BinOp); ok && (b.Op == token.LSS || b.Op == token.GTR || b.Op == token.LEQ || b.Op == token.GEQ) {
 						for y := range backSlice(b) {
 							if call, ok := y.(*ssa.Call); ok {
 								if bi, ok := call.Call.Value.(*ssa.Builtin); ok && bi.Name() == "len" {
@@ -653,7 +653,7 @@ func ruleP2(c *Ctx) {
 						}
 					}
 					if !loopBound {
-						condDrain = c.P.Pos(pc.If.Cond.Pos())
+						condDrain = c.P.Pos(pf.Cond.Pos())
 					}
 				}
 			})
